@@ -27,7 +27,7 @@ sys.path.insert(0, os.path.dirname(os.path.abspath(__file__)))
 import c06_world as W  # noqa: E402
 
 EXTRACTORS = ["Cache"]
-EXTRA_PROPS = ["C06Hash"]   # pyEq_hash, frozen_key_eq_iff (Props/C06Hash.lean)
+EXTRA_PROPS = ["C06Hash", "C06Num"]   # pyEq_hash, frozen_key_eq_iff (Props/C06Hash.lean); hashInt/hashDouble = numHash (Props/C06Num.lean)
 
 # ================================================================================================= (a) values
 from c06_world import (NP_KIND, KIND_TYPENAME, KIND_TYPE, INT_KINDS, FLOAT_KINDS, BOOL_KINDS, ALL_KINDS, Converter)  # noqa: E402,F401
@@ -908,6 +908,59 @@ def _hash_exact(x):
     return isinstance(x, (int, float, bool, np.integer, np.floating, np.bool_, str, type(None), type)) and not isinstance(x, inspect._ParameterKind)
 
 
+def correspondence_numhash(ctx, drv):
+    """CPython's `hash` of numbers against the three functions of the model: the specification `numHash` (what `pyHash` uses),
+    and the algorithms `hashInt` (long_hash) / `hashDouble` (_Py_HashDouble) of Cache/NumHash.lean, which Props/C06Num.lean
+    proves equal to it.  Ints of up to ~200 bits, doubles with random 53-bit mantissas and exponents in [-90, 40], integral
+    doubles, numpy scalars of every kind."""
+    rng = ctx.rng
+    vals = []
+    for v in INT_POOL + [2 ** 53 - 1, 2 ** 53, -(2 ** 53) + 1, 2 ** 30 - 1, 2 ** 30, 2 ** 60, 2 ** 122 - 2, -(2 ** 61 - 1), 2 ** 61 - 2]:
+        vals.append(("pyInt", v))
+        if abs(v) < 2 ** 53:
+            vals.append(("pyFloat", float(v)))
+    n = 400 if ctx.quick else 6000
+    for _ in range(n):
+        r = rng.random()
+        if r < 0.3:
+            v = rng.getrandbits(rng.choice([5, 29, 30, 31, 59, 60, 61, 62, 64, 90, 121, 200])) * rng.choice([1, -1])
+            vals.append(("pyInt", v))
+        elif r < 0.6:
+            m = rng.getrandbits(rng.choice([1, 3, 24, 28, 29, 52, 53])) * rng.choice([1, -1])
+            vals.append(("pyFloat", float(m) * 2.0 ** rng.randint(-90, 40)))
+        elif r < 0.75:
+            v = rng.getrandbits(rng.choice([3, 20, 40, 53])) * rng.choice([1, -1])
+            vals.append(("pyFloat", float(v)))
+            vals.append(("pyInt", v))
+        else:
+            kind = rng.choice(ALL_KINDS)
+            x = gen_scalar(rng)
+            if x is not None:
+                vals.append((next(k for k, t in KIND_TYPE.items() if type(x) is t), x))
+    reqs, meta = [], []
+    for kind, v in vals:
+        x = KIND_TYPE[kind](v) if not isinstance(v, (np.generic,)) and kind not in ("pyInt", "pyFloat", "pyBool") else v
+        num, e = W._dy(x)
+        reqs.append({"kind": "numhash", "k": kind, "n": num, "e": e})
+        meta.append((kind, x, num, e))
+    bad = 0
+    for (kind, x, num, e), r in zip(meta, drv.ask_many(reqs)):
+        ctx.count("numhash:values")
+        ctx.count("numhash:" + ("integral" if e == 0 else "fractional") + ":" + ("float" if kind in FLOAT_KINDS else "int"))
+        real = hash(x)
+        want = {"spec": real, "kind": real, "double": hash(float(x)) if e > 0 or abs(num) < 2 ** 53 else None}
+        if e == 0:
+            want["int"] = hash(int(num))
+        for f, w in want.items():
+            if w is not None and r.get(f) != w and bad < 5:
+                bad += 1
+                ctx.tie_broken("correspondence:numeric-hash", f"{kind} {x!r} (= {num} / 2**{e}): CPython hash {w}, model `{f}` {r.get(f)}")
+        if e == 0 and r["int"] != r["double"]:
+            raise core.MachineryError(f"driver contradicts int_float_hash_agree on {num}")
+        if r["spec"] != r["kind"]:
+            raise core.MachineryError(f"driver contradicts hashNum_eq_numHash on {kind} {num}/2**{e}")
+
+
 def correspondence_stack(ctx, drv):
     """The model of the `with` protocol against CPython's `with` on the real context managers."""
     import einx
@@ -1002,6 +1055,7 @@ def run(ctx):
         t0 = time.time()
         collisions, _ = correspondence_values(ctx, drv, table, 20000 if ctx.quick else 300000)
         ctx.extra["seconds_values"] = round(time.time() - t0, 1)
+        correspondence_numhash(ctx, drv)
         correspondence_stack(ctx, drv)
     ctx.extra["key_collisions_with_different_observation"] = len(collisions)
     full_theorem = bool(ctx.extra.get("table_status", {}).get("tagsAll")) and ctx.lean_ok
